@@ -254,6 +254,7 @@ def main():
             if kf['property'] != prop:
                 continue
             pred = getattr(fam, 'known_' + kf['class'], None)
+            c['_what'] = what
             if pred and pred(c, mo, io):
                 return kf
         return None
